@@ -38,6 +38,7 @@ impl Driver {
         evt["price"] = json!(100 + (self.t % 7));
         self.kit.set_env(env);
         let _ = self.kit.links.take();
+        self.kit.script.lock().disconnects.clear();
         let engine = &mut self.kit.engine;
         let res = catch(|| process_with_audit(engine, make_event(&evt)));
         let line = match res {
@@ -45,7 +46,10 @@ impl Driver {
                 let t = project_tick(&tick);
                 self.terminal = t["terminal"].as_bool().unwrap_or(false);
                 let dl: Vec<Vec<Value>> = self.kit.links.take().iter().map(|l| l.iter().map(exec_json).collect()).collect();
-                json!({"a": "Step", "ev": ev, "env": env, "tick": t, "dl": dl, "post": project_state(&self.kit.engine.state)})
+                // on-disconnect strategy invocations of this step (exchange indices, in call order)
+                let disc: Vec<i64> = self.kit.script.lock().disconnects.iter()
+                    .map(|e| vh::world2::EXCHANGES.iter().position(|x| x == e).map(|p| p as i64).unwrap_or(-1)).collect();
+                json!({"a": "Step", "ev": ev, "env": env, "tick": t, "dl": dl, "disc": disc, "post": project_state(&self.kit.engine.state)})
             }
             Err(p) => {
                 self.terminal = true;
